@@ -296,7 +296,7 @@ func TestVerif_C13_rl(t *testing.T) {
 	r := s.Rand()
 	cnt := c13Counter{}
 	var pendDump []c13RlPending
-	n := verifh.N(1500, 60000)
+	n := verifh.N(3000, 60000)
 	for c := 0; c < n; c++ {
 		B := verifh.Pick(r, []int{16, 16, 16, 64, 64, 4096})
 		useK := r.Intn(4) == 0
@@ -489,7 +489,7 @@ func TestVerif_C13_head(t *testing.T) {
 		"generated response heads: status line, 0..40 headers (repeated names, empty values, values of B-8..3B bytes), obs-fold continuation lines, bare-LF terminators, missing final blank line, garbage lines; B in {16,64,4096}; read scripts as in lane rl; each head is parsed with dump off, with one and with two dumpers; non-trivial = a line reached B, a folded header or > 8 headers")
 	r := s.Rand()
 	cnt := c13Counter{}
-	n := verifh.N(600, 30000)
+	n := verifh.N(1500, 30000)
 	for c := 0; c < n; c++ {
 		B := verifh.Pick(r, []int{16, 64, 64, 4096, 4096})
 		eol := func() string {
